@@ -14,14 +14,15 @@ MODULE = "Model.Consumer"
 # every theorem of coq/Props/C13.v and C13all.v speaks about Model/Consumer.v: all lose their tie when the correspondence breaks
 THEOREMS = ["C13_quiescent_after_stop", "C13_stopping_inert", "C13_stop_never_fails_start", "C13_stop_step_never_fails_start",
             "C13_quiescent_closed", "C13_start_once", "C13_start_once_nested", "C13_restartable", "C13_restart_delivers",
-            "C13_stop_clears_shutdown_partial", "C13_shutdown_waits", "C13_stop_not_running", "C13_reachable_invariant",
-            "C13_not_started_idle", "C13_not_started_idle_nested", "C13_every_stop_quiescent", "C13_shutdown_commits",
-            "C13_shutdown_commits_step", "C13_fuel_monotone", "C13_fuel_monotone_nested", "C13_stop_fuel_enough",
-            "C13_stop_step_fuel_enough", "C13_stopping_fuel_enough", "C13_commit_side_fuel_enough", "C13_message_loop_fuel_enough",
-            "C13_step_fuel_enough", "C13_fuel_enough", "C13_reachable_invariant_all", "C13_every_stop_quiescent_all",
-            "C13_shutdown_commits_all", "C13_not_started_idle_all", "C13_not_started_commit_idle",
-            "C13_not_started_commit_idle_step", "C13_not_started_commit_idle_nested", "C13_not_started_commit_idle_all",
-            "C13_stop_never_raises", "C13_stop_preserves_shutdown_bookkeeping"]
+            "C13_stop_clears_shutdown_consistent", "C13_stop_never_raises", "C13_stop_preserves_shutdown_bookkeeping",
+            "C13_shutdown_waits", "C13_stop_not_running", "C13_reachable_invariant", "C13_not_started_idle", "C13_not_started_idle_nested",
+            "C13_not_started_commit_idle", "C13_not_started_commit_idle_step", "C13_not_started_commit_idle_nested",
+            "C13_shutdown_bookkeeping", "C13_stop_clears_shutdown", "C13_stop_then_restart_delivers", "C13_every_stop_quiescent",
+            "C13_shutdown_commits", "C13_shutdown_commits_step", "C13_fuel_monotone", "C13_fuel_monotone_nested",
+            "C13_stop_fuel_enough", "C13_stop_step_fuel_enough", "C13_stopping_fuel_enough", "C13_commit_side_fuel_enough",
+            "C13_message_loop_fuel_enough", "C13_step_fuel_enough", "C13_fuel_enough", "C13_reachable_invariant_all",
+            "C13_every_stop_quiescent_all", "C13_shutdown_commits_all", "C13_not_started_idle_all", "C13_not_started_commit_idle_all",
+            "C13_shutdown_bookkeeping_all", "C13_stop_then_restart_delivers_all"]
 
 
 def idle(ob):
@@ -593,12 +594,13 @@ def run(ck):
         "(C13_reachable_invariant, C13_every_stop_quiescent [application stop() events], C13_shutdown_commits, C13_not_started_idle) carry the "
         "hypothesis all_fuel_ok, which C13_fuel_enough discharges for every configuration the constructor accepts (auto_commit_every_n >= 0): "
         "the _all forms (Props/C13all.v) state them as exists fuel0, forall fuel >= fuel0",
-        "Props/C13all.v (5 of the 37 theorems: C13_reachable_invariant_all, C13_every_stop_quiescent_all, C13_shutdown_commits_all, "
-        "C13_not_started_idle_all, C13_not_started_commit_idle_all - one-line corollaries of C13_fuel_enough and the theorem of the same name without _all, both in Props/C13.v) "
-        "is re-checked by ck.props only on the thorough tier; on the quick tier it is built by make and its 5 obligations are NOT re-checked",
-        "NOT proved: that every reachable state has consistent shutdown bookkeeping (invs item 5, evaluated model-side on every case; "
-        "C13_stop_clears_shutdown_partial assumes it); "
-        "a processor / auto-commit failure reaching the start Deferred is held by trace equality only",
+        "Props/C13all.v (7 of the 42 theorems: the _all forms C13_reachable_invariant_all, C13_every_stop_quiescent_all, C13_shutdown_commits_all, "
+        "C13_not_started_idle_all, C13_not_started_commit_idle_all, C13_shutdown_bookkeeping_all, C13_stop_then_restart_delivers_all - one-line corollaries of C13_fuel_enough and the theorem of the same name without _all, both in Props/C13.v) "
+        "is re-checked by ck.props only on the thorough tier; on the quick tier it is built by make and its 7 obligations are NOT re-checked",
+        "the shutdown bookkeeping is consistent in every reachable state (C13_shutdown_bookkeeping = invs item 5, proved; still evaluated "
+        "model-side on every case), so any stop() that returns clears it (C13_stop_clears_shutdown) and a stopped consumer delivers again "
+        "after start() (C13_stop_then_restart_delivers); NOT proved: a processor / auto-commit failure reaching the start Deferred is held by "
+        "trace equality only",
         "the harness gives the model fuel 60 + #events + 2 x #messages (consumer_lib.fuel_for), not the proved bound BE; a case needing more would "
         "surface as a trace difference (the implementation never emits the out-of-fuel marker)",
     ]
